@@ -1,9 +1,9 @@
 package checks
 
 import (
-	"path/filepath"
-	"os"
 	"fmt"
+	"os"
+	"path/filepath"
 	"sort"
 	"strings"
 	"time"
@@ -17,20 +17,20 @@ import (
 // Bounded-exhaustive configurations with the textbook resolution as reference.
 
 type c09Cfg struct {
-	L       int // chain length (t0 root .. t{L-1} executed)
-	names   []string
-	opt     [][]int // opt[level][nameIdx]: 0 absent, 1 defines, 2 defines + parent(); level 0 always defines
-	layout  int     // root: 0 flat, 1 second block nested inside the first, 2 first block inside a 2-iteration loop
-	pref    int     // parent reference: 0 literal, 1 variable, 2 concatenation
-	useLvl  int     // 0 none; else the level that has a use tag
-	useKind int     // 0 plain use of 'blk' (defines all names), 1 aliased use of 'blk2' (x as y) + block('y')
-	blockFn bool    // root's first block also prints block(<second name>)
-	nested  bool    // every child-level definition holds a nested block of its own before calling parent()
-	splitUse   bool // the plain use is spread over three use tags ('blkE' unrelated, 'blkA' the first name, 'blkB' the others)
-	embedIn    bool // every child-level definition embeds a component and overrides, for that embed, a block named like the layout's first
-	usedParent bool // the blocks of the plainly used template call parent() themselves (the next definition below them)
-	rootParent bool // the root holds a block rp that calls parent(); the first child overrides it, so it never runs
-	pform   int     // how parent() is written: 0 once, 1 twice, 2 inside a 2-iteration loop, 3 after a block() call of the block itself
+	L          int // chain length (t0 root .. t{L-1} executed)
+	names      []string
+	opt        [][]int // opt[level][nameIdx]: 0 absent, 1 defines, 2 defines + parent(); level 0 always defines
+	layout     int     // root: 0 flat, 1 second block nested inside the first, 2 first block inside a 2-iteration loop
+	pref       int     // parent reference: 0 literal, 1 variable, 2 concatenation
+	useLvl     int     // 0 none; else the level that has a use tag
+	useKind    int     // 0 plain use of 'blk' (defines all names), 1 aliased use of 'blk2' (x as y) + block('y')
+	blockFn    bool    // root's first block also prints block(<second name>)
+	nested     bool    // every child-level definition holds a nested block of its own before calling parent()
+	splitUse   bool    // the plain use is spread over three use tags ('blkE' unrelated, 'blkA' the first name, 'blkB' the others)
+	embedIn    bool    // every child-level definition embeds a component and overrides, for that embed, a block named like the layout's first
+	usedParent bool    // the blocks of the plainly used template call parent() themselves (the next definition below them)
+	rootParent bool    // the root holds a block rp that calls parent(); the first child overrides it, so it never runs
+	pform      int     // how parent() is written: 0 once, 1 twice, 2 inside a 2-iteration loop, 3 after a block() call of the block itself
 }
 
 func c09Decode(n []int) c09Cfg {
